@@ -74,14 +74,14 @@ def build_case(rng, everything=False, flat=False):
             t.files["top.cmake"] = cmake_text("top.cmake")
         c.tree = t
     else:
-        c.tree = gen_tree(rng, max_depth=rng.choice([1, 2, 3, 4]), case_twins=rng.random() < 0.3, index_module=rng.random() < 0.08)
+        c.tree = gen_tree(rng, max_depth=rng.choice([1, 2, 3, 4]), case_twins=rng.random() < 0.3, index_module=rng.random() < 0.08, symlinks=rng.random() < 0.2)
     c.recursive = rng.random() < 0.8
     c.auto = rng.random() < 0.6
     c.everything = everything
     return c
 
 
-def run_case(c, rng, sb, order, res, patterns=None, allow_extra_input=True):
+def run_case(c, rng, sb, order, res, patterns=None, allow_extra_input=True, prefix=None, prefix_src="cli"):
     """Executes the case; fills c.ref / c.fr / c.out_abs / c.inp. `patterns`: fixed list, else generated."""
     inp = os.path.join(sb, "work", "proj")
     c.inp = inp
@@ -165,6 +165,11 @@ def run_case(c, rng, sb, order, res, patterns=None, allow_extra_input=True):
         sfile.setdefault("input", {})["exclude_filters"] = src["sfile"]
     if not c.auto:
         sfile.setdefault("input", {})["auto_exclude_directories_without_cmake"] = False
+    if prefix is not None:
+        if prefix_src == "cli":
+            argv += ["-p", prefix]
+        else:
+            sfile.setdefault("rst", {})["prefix"] = prefix
     if sfile:
         cfg = os.path.join(sb, "cfg", "s.yaml")
         fsrun.write_yaml(cfg, sfile)
@@ -182,6 +187,16 @@ def run_case(c, rng, sb, order, res, patterns=None, allow_extra_input=True):
         c.extra_page_expected = not excluded
         if not excluded:
             c.want = set(c.want) | {"xin_file.rst"}
+    # in one case of eight the input path is a symbolic link to a directory with another name stored elsewhere: patterns,
+    # titles and relative paths are all taken from the path as given
+    # (not when the run starts inside the input: the kernel then reports the link's target as the working directory)
+    c.linked_input = rng.random() < 0.15 and c.cwd_kind != "root"
+    if c.linked_input:
+        real = os.path.join(sb, "Q_store", "Q_checkout_0042")
+        os.makedirs(os.path.dirname(real), exist_ok=True)
+        os.rename(inp, real)
+        os.symlink(real, inp)
+        res.count("runs_with_symlinked_input_directory")
     c.fr = fsrun.run_monitored(sb, argv, cwd, home, order=order)
     c.got = fsrun.files_under(out_abs) if os.path.isdir(out_abs) else set()
     return c
